@@ -66,9 +66,10 @@ CHECKS = {
     },
     "C11": {
         "module": "Vanguard.Props.C11", "namespace": "Vanguard.C11", "streams": ["e2e", "codes", "percent", "timeout", "escape", "route", "envelope", "rest", "schema", "config"],
-        "partial": "panic-freedom is proved for every outcome-reporting path and for every WriteHeader/Write call of every handler script "
-                   "and the closing of the response writer when the handler returns (invariant Ready over whole runs, loops of both response writers "
-                   "included, which also terminate); for the request readers it is checked by correspondence (panic=0 in every observation, watchdog); "
+        "partial": "panic-freedom and termination are proved for the whole e2e model of ServeHTTP (serve_never_panics: every configuration, "
+                   "request, client body and backend script); for the separate REST-translation and NewTranscoder models they are checked by the "
+                   "no-panic oracle over their streams, not proved; the tie of the model to the code is the correspondence (panic=0 in every "
+                   "observation, watchdog for calls that do not return); "
                    "framing by a real HTTP stack is represented by httptest.ResponseRecorder only",
         "assumptions": E2E_ASSUME,
     },
